@@ -2,6 +2,7 @@ package checks
 
 import (
 	"bytes"
+	"context"
 	"crypto/sha256"
 	"encoding/hex"
 	"fmt"
@@ -93,6 +94,8 @@ type c20Shared struct {
 	// that load and blocks that are refused in each of the ways a load can be refused
 	lsysMem   linking.LinkSystem
 	failLinks []datamodel.Link
+	// a Config with every field set by the caller (nothing for a walk to fill in), including a start path
+	cfgFull *traversal.Config
 }
 
 func c20Setup(seed uint64) (*c20Shared, error) {
@@ -120,6 +123,16 @@ func c20Setup(seed uint64) (*c20Shared, error) {
 	for _, c := range g.Order {
 		ci, _ := cid.Cast([]byte(c))
 		s.links = append(s.links, cidlink.Link{Cid: ci})
+	}
+	{
+		U := core.RunWalk(g, core.SelAll(), core.WalkCfg{}, false)
+		var start datamodel.Path
+		if len(U.Visits) > 2 {
+			start = U.Visits[len(U.Visits)/2].Kept
+		}
+		s.cfgFull = &traversal.Config{Ctx: context.Background(), LinkSystem: s.lsys, StartAtPath: start, LinkTargetNodePrototypeChooser: func(datamodel.Link, linking.LinkContext) (datamodel.NodePrototype, error) {
+			return basicnode.Prototype.Any, nil
+		}}
 	}
 	s.proto = bindnode.Prototype((*c20Person)(nil), c20TS.TypeByName("Person"))
 	age := int64(33)
@@ -204,6 +217,42 @@ func c20Work(s *c20Shared, workload string, iters int) string {
 				put(p.Path.String() + " " + termOf(n))
 				return nil
 			})
+		case "walk-full": // a Config the caller filled in completely (start path included), shared by every walk
+			sel, st := core.CompileSel(s.sel)
+			if st != "" {
+				put(st)
+				break
+			}
+			root, _ := core.BuildBasic(s.graph.Root, nil)
+			err := traversal.Progress{Cfg: s.cfgFull}.WalkAdv(root, sel, func(p traversal.Progress, n datamodel.Node, r traversal.VisitReason) error {
+				put(p.Path.String() + " " + termOf(n))
+				return nil
+			})
+			put(fmt.Sprint(err))
+			put("start=" + s.cfgFull.StartAtPath.String())
+		case "tsmerge": // copying types out of a shared type system into private ones while nodes over the shared types are read
+			func() {
+				defer func() {
+					if r := recover(); r != nil {
+						put(fmt.Sprintf("panic %v", r))
+					}
+				}()
+				private := schema.MustTypeSystem(schema.SpawnString("Int"), schema.SpawnInt("String"), schema.SpawnBool("Any"))
+				schema.MergeTypeSystem(private, c20TS, true)
+				put(fmt.Sprint(len(private.Names())))
+				if c := schema.Clone(c20TS.TypeByName("Person")); c != nil {
+					put(string(c.Name()))
+				}
+				put(termOf(s.bound))
+				put(termOf(s.bound.(schema.TypedNode).Representation()))
+				nb := s.proto.NewBuilder()
+				if err := datamodel.Copy(s.bound, nb); err == nil {
+					put(termOf(nb.Build()))
+				}
+				var buf bytes.Buffer
+				dagjson.Encode(s.bound.(schema.TypedNode).Representation(), &buf)
+				put(buf.String())
+			}()
 		case "links": // loads and link computation through one link system over a read-only store
 			for _, l := range s.links {
 				n, err := s.lsys.Load(linking.LinkContext{}, l, basicnode.Prototype.Any)
@@ -452,7 +501,7 @@ func runC20(c *core.Ctx) error {
 		return sigs, sample, digests, seq, nil
 	}
 	rounds := c.Pick(1, 12)
-	for _, workload := range []string{"nodes", "walk", "links", "loadfail", "bind", "gen", "stream", "infer-same"} {
+	for _, workload := range []string{"nodes", "walk", "walk-full", "tsmerge", "links", "loadfail", "bind", "gen", "stream", "infer-same"} {
 		for round := 0; round < 2*rounds; round++ {
 			g := []int{8, 4, 16}[(round/2)%3]
 			procs := []int{8, 2, 16, 4}[(round/2)%4]
